@@ -110,6 +110,14 @@ mod vx_kani_names {
         assert!(compare_names("b", "A") == Ordering::Greater);
         assert!(compare_names("B", "a") == Ordering::Greater);
         assert!(compare_names("z", "aa") == Ordering::Less);
+        // every ASCII character between 'Z' and 'a' sorts AFTER the letters (upper-casing, not lower-casing, decides)
+        assert!(compare_names("a[", "aZ") == Ordering::Greater);
+        assert!(compare_names("a^", "ab") == Ordering::Greater);
+        assert!(compare_names("a`", "az") == Ordering::Greater);
+        assert!(compare_names("a]", "a\\") == Ordering::Greater);
+        // digits sort before letters, whatever the case
+        assert!(compare_names("a1", "aB") == Ordering::Less);
+        assert!(compare_names("A9", "a0") == Ordering::Greater);
     }
     // concrete pairs (constant folding keeps this cheap): different UTF-16 lengths decide, whatever the characters
     #[kani::proof]
